@@ -43,8 +43,25 @@ pub fn c07<T: Elem + Copy>(out: &mut Vec<String>, chain: &[T]) {
         for x in chain {
             out.push(format!("C07 contains {} {} {} => {}", t, enc_interval(i), x.enc(), b(i.contains(x))));
             let r = RangeBounds::contains(i, x);
-            out.push(format!("C07 rcontains {} {} {} => {}", t, enc_interval(i), x.enc(), b(r)));
+            // membership as a consumer of the two bounds computes it (BTreeMap::range, slicing, drain, …)
+            let lo_ok = match i.start_bound() {
+                std::ops::Bound::Included(s) => s <= x,
+                std::ops::Bound::Excluded(s) => s < x,
+                std::ops::Bound::Unbounded => true,
+            };
+            let hi_ok = match i.end_bound() {
+                std::ops::Bound::Included(e) => x <= e,
+                std::ops::Bound::Excluded(e) => x < e,
+                std::ops::Bound::Unbounded => true,
+            };
+            out.push(format!("C07 rcontains {} {} {} => {} {}", t, enc_interval(i), x.enc(), b(r), b(lo_ok && hi_ok)));
         }
+        let eb = |bd: std::ops::Bound<&T>| match bd {
+            std::ops::Bound::Included(s) => format!("In {}", s.enc()),
+            std::ops::Bound::Excluded(s) => format!("Ex {}", s.enc()),
+            std::ops::Bound::Unbounded => "Un".to_string(),
+        };
+        out.push(format!("C07 rbounds {} {} => {} {}", t, enc_interval(i), eb(i.start_bound()), eb(i.end_bound())));
         for j in &ivs {
             let (ei, ej) = (enc_interval(i), enc_interval(j));
             out.push(format!("C07 intersects {} {} {} => {}", t, ei, ej, b(i.intersects(j))));
@@ -251,6 +268,33 @@ pub fn c14_acc<T: Elem + Copy>(out: &mut Vec<String>, chain: &[T]) {
         ));
         for j in &ivs {
             out.push(format!("C14 eq {} {} {} => {}", t, enc_interval(i), enc_interval(j), b(i == j)));
+        }
+    }
+}
+
+macro_rules! pairs_for {
+    ($out:ident, $kind:expr, $a:expr, $b:expr, $($x:ty),*) => {
+        $(
+            if let (Ok(a), Ok(bb)) = (<$x>::try_from($a), <$x>::try_from($b)) {
+                let iv: Option<Interval<$x>> = match $kind {
+                    0 => Interval::new(a, bb).ok(),
+                    1 => Some(Interval::new_upper(a)),
+                    _ => Some(Interval::new_lower(bb)),
+                };
+                if let Some(iv) = iv {
+                    let p: ($x, $x) = iv.into();
+                    $out.push(format!("C14 pairs n {} {} {} {} => {} {}", stringify!($x), $kind, $a, $b, p.0, p.1));
+                }
+            }
+        )*
+    };
+}
+
+/// the pair conversion of every integer instantiation (the missing side is MIN / MAX of that very type)
+pub fn c14_pairs(out: &mut Vec<String>) {
+    for (a, b) in [(-100i64, -3i64), (-7, 0), (-1, 1), (0, 0), (0, 5), (3, 100), (100, 127), (-128, -100)] {
+        for kind in 0..3usize {
+            pairs_for!(out, kind, a, b, i8, i16, i32, i64, i128, isize, u8, u16, u32, u64, u128, usize);
         }
     }
 }
